@@ -23,9 +23,9 @@ from harness.common import Check
 
 REGISTRY = dict(
     text=("Proof (unbounded): in the heap model every component operation (DummyVecEnv, VecFrameStack, VecNormalize, VecTransposeImage, VecExtractDictObs, VecCheckNan, "
-          "VecMonitor, replay/rollout buffers, HerReplayBuffer with retained info dicts, predict) passes the copy-discipline checker, and for EVERY disciplined program and EVERY call history interleaved with arbitrary "
+          "VecMonitor, replay/rollout buffers, HerReplayBuffer with retained info dicts, rollout buffer add/compute/get/reset, VecNormalize's public transforms, predict on array and Dict observations) passes the copy-discipline checker, and for EVERY disciplined program and EVERY call history interleaved with arbitrary "
           "caller writes: caller-owned arrays are never modified, returned objects are never retained in live state nor written later, and results do not depend on "
-          "caller writes to objects passed or returned earlier. Pre-fix VecFrameStack, DictReplayBuffer.add and HerReplayBuffer.add (kept / one-level-copied info dicts) are refuted with concrete histories. Tie: per-call aliasing facts of every program (call_facts) compared with the implementation + alias-graph correspondence "
+          "caller writes to objects passed or returned earlier. Pre-fix VecFrameStack, DictReplayBuffer.add and HerReplayBuffer.add (kept / one-level-copied info dicts) and predict() without the Dict copy are refuted with concrete histories. Tie: per-call aliasing facts of every program (call_facts) compared with the implementation + alias-graph correspondence "
           "(np.shares_memory vs model sharing relation) + snapshot/twin-run oracle over random call sequences."),
     note=("Trusted: Coq 8.16.1 kernel, harness/c19.py (walk of __dict__ for internal arrays, sentinel twin runs), numpy's shares_memory. The component programs in "
           "coq/Model/Alias.v are hand-written from the source and tied to it only by the alias-graph correspondence (no translator: the property is about object identity, "
@@ -261,6 +261,7 @@ def run_vecenv(case):
     hp, ht = Holder(), Holder()
     problems, sharing = [], []
     held_infos = []
+    extra_facts_bad = []
     try:
         for k, op in enumerate(case["ops"]):
             outs = []
@@ -291,7 +292,17 @@ def run_vecenv(case):
                     vn = [v for v in _chain(venv) if type(v).__name__ == "VecNormalize"][0]
                     mine_o, mine_r = copy.deepcopy(vn.get_original_obs()), vn.get_original_reward().copy()
                     snap_o, snap_r = copy.deepcopy(mine_o), mine_r.copy()
+                    vslots = [None if x is None else list(x) for x in _slot_objects(vn, "vecnorm")]
+                    before = _snap_slots(vslots)
+                    fp_o, fp_r = _fp_any(mine_o) if not isinstance(mine_o, dict) else _fp_any(mine_o), _fp_any(mine_r)
                     res = {"n_obs": vn.normalize_obs(mine_o), "n_rew": vn.normalize_reward(mine_r)}
+                    if not is_twin:
+                        vafter = [None if x is None else list(x) for x in _slot_objects(vn, "vecnorm")]
+                        normcall_bad = call_facts_compare("vecnorm_normalize_call", before, vafter, [[a for _, a in _leaves(mine_o)]], [res["n_obs"]],
+                                                          args_fp_before=[fp_o], args_objs=[mine_o])
+                        normcall_bad += call_facts_compare("vecnorm_normalize_reward_call", before, vafter, [[mine_r]], [res["n_rew"]],
+                                                           args_fp_before=[fp_r], args_objs=[mine_r])
+                        extra_facts_bad.extend(normcall_bad)
                     res["u_obs"] = vn.unnormalize_obs(res["n_obs"])
                     res["u_rew"] = vn.unnormalize_reward(res["n_rew"])
                     if not _same({"o": mine_o, "r": mine_r}, {"o": snap_o, "r": snap_r}):
@@ -323,7 +334,7 @@ def run_vecenv(case):
         prim.close()
         twin.close()
     live = sorted({(attr, name) for (_, _, attr, name) in sharing if attr not in DEAD_ATTRS})
-    facts_bad = compare_facts(MODEL_FACTS, taps) if MODEL_FACTS else []
+    facts_bad = (compare_facts(MODEL_FACTS, taps) if MODEL_FACTS else []) or extra_facts_bad[:4]
     return problems, live, len(case["ops"]), facts_bad
 
 
@@ -502,7 +513,7 @@ def compare_facts(model_facts, taps):
         rp, sp, nlive, ndead = COMPONENT_PROGRAMS[tap.comp]
         for k, (op, f) in enumerate(tap.facts):
             m = model_facts[rp if op == "reset" else sp]
-            m_ret_slot, m_ret_arg, m_ret_inner, m_rebound, m_slot_inner, m_slot_arg, m_written, m_inner_written = m
+            m_ret_slot, m_ret_arg, m_ret_inner, m_rebound, m_slot_inner, m_slot_arg, m_written, m_inner_written = m[:8]
             who = f"{type(tap.venv).__name__}.{op} (call {k})"
             if len(f["ret_slot"]) != len(m_ret_slot):
                 bad.append(f"{who}: {len(f['ret_slot'])} returned components, model program returns {len(m_ret_slot)}")
@@ -539,7 +550,10 @@ def compare_facts(model_facts, taps):
 # ------------------------------------------------------------------ per-call facts of the buffer programs
 
 # program of coq/Model/Alias.v -> (nargs, live slots, dead slots)
-BUFFER_PROGRAMS = {"buffer_add": (5, 5, 0), "buffer_sample": (0, 5, 0), "her_add": (7, 7, 0), "her_sample": (0, 7, 0)}
+BUFFER_PROGRAMS = {"buffer_add": (5, 5, 0), "buffer_sample": (0, 5, 0), "her_add": (7, 7, 0), "her_sample": (0, 7, 0),
+                   "rollout_add": (6, 8, 0), "rollout_compute": (2, 8, 0), "rollout_get": (0, 8, 0), "rollout_reset": (0, 8, 0),
+                   "vecnorm_normalize_call": (1, 5, 0), "vecnorm_normalize_reward_call": (1, 5, 0),
+                   "predict_prog": (1, 1, 0), "predict_dict_prog": (1, 1, 0)}
 
 
 def _mutable_values(infos):
@@ -600,7 +614,7 @@ def buffer_add_facts(prog, before, after, arg_groups):
     m = MODEL_FACTS.get(prog)
     if m is None:
         return []
-    _, _, _, m_rebound, _, m_slot_arg, m_written, _ = m
+    _, _, _, m_rebound, _, m_slot_arg, m_written, _ = m[:8]
     bad = []
     for s_i, (b, a) in enumerate(zip(before, after)):
         if a is None or s_i >= len(m_slot_arg):
@@ -636,6 +650,87 @@ def buffer_sample_facts(prog, batch, after):
             if o != m_ret_slot[j][s_i]:
                 bad.append(f"{prog}: returned component {j} shares memory with live slot {s_i}: observed {o}, model {m_ret_slot[j][s_i]}")
     return bad[:4]
+
+def _np_view(o):
+    """numpy view of a tensor (shares its memory), arrays unchanged"""
+    import numpy as np
+    import torch as th
+
+    if isinstance(o, th.Tensor):
+        return o.detach().numpy()
+    return o if isinstance(o, np.ndarray) else None
+
+
+def _fp_any(o):
+    a = _np_view(o)
+    if a is not None:
+        return (a.shape, str(a.dtype), a.tobytes())
+    if isinstance(o, dict):
+        return tuple((k, id(v), _fp_any(v)) for k, v in o.items())
+    return repr(o)
+
+
+def call_facts_compare(prog, slots_before, slots_after, arg_groups, rets, args_fp_before=None, args_objs=None, strict_rebound=False):
+    """compare one library call with `call_facts prog` of coq/Model/Alias.v.
+    slots_*: per live slot None (not observed) or list of objects; arg_groups[i] = objects of argument i; rets = returned objects.
+    Sharing / identity facts must be EQUAL; `rebound`, `written`, `arg written` observed must be ALLOWED by the program
+    (strict_rebound: a slot the program rebinds must really have been rebound)."""
+    m = MODEL_FACTS.get(prog)
+    if m is None:
+        return []
+    m_ret_slot, m_ret_arg, _, m_rebound, _, m_slot_arg, m_written, _, m_arg_written = m
+    bad = []
+
+    def related(x, y):
+        ax, ay = _np_view(x), _np_view(y)
+        if x is y:
+            return True
+        import numpy as np
+        return bool(ax is not None and ay is not None and ax.size and ay.size and np.shares_memory(ax, ay))
+
+    ret_objs = [[a for _, a in _leaves(r)] or [r] for r in rets]
+    if len(rets) != len(m_ret_slot):
+        return [f"{prog}: {len(rets)} returned components, model program returns {len(m_ret_slot)}"]
+    for j, objs in enumerate(ret_objs):
+        for s_i, a in enumerate(slots_after):
+            if a is None or s_i >= len(m_ret_slot[j]):
+                continue
+            o = any(related(x, y) for x in objs for y in a)
+            if o != m_ret_slot[j][s_i]:
+                bad.append(f"{prog}: returned component {j} shares memory with live slot {s_i}: observed {o}, model {m_ret_slot[j][s_i]}")
+        o_arg = [any(related(x, y) for x in objs for y in grp) for grp in arg_groups]
+        if o_arg != list(m_ret_arg[j])[:len(o_arg)]:
+            bad.append(f"{prog}: returned component {j} vs arguments: observed {o_arg}, model {list(m_ret_arg[j])}")
+    for s_i, (b, a) in enumerate(zip(slots_before, slots_after)):
+        if a is None or s_i >= len(m_slot_arg):
+            continue
+        o_arg = [any(related(o, x) for o in a for x in grp) for grp in arg_groups]
+        if o_arg != list(m_slot_arg[s_i])[:len(o_arg)]:
+            bad.append(f"{prog}: live slot {s_i} vs the caller's arguments after the call: observed {o_arg}, model {list(m_slot_arg[s_i])}")
+        if b is not None:
+            rebound = tuple(id(o) for o in b["objs"]) != tuple(id(o) for o in a)
+            if rebound and not m_rebound[s_i]:
+                bad.append(f"{prog}: live slot {s_i} was rebound to another object, the model program keeps it")
+            if strict_rebound and m_rebound[s_i] and not rebound:
+                bad.append(f"{prog}: live slot {s_i} still refers to the same object, the model program rebinds it to a new one")
+            if [_fp_any(o) for o in b["objs"]] != b["fp"] and not m_written[s_i]:
+                bad.append(f"{prog}: the object live slot {s_i} referred to was modified in place, the model program does not write it")
+    if args_fp_before is not None:
+        for i, (fp0, obj) in enumerate(zip(args_fp_before, args_objs)):
+            if _fp_any(obj) != fp0 and not (i < len(m_arg_written) and m_arg_written[i]):
+                bad.append(f"{prog}: argument {i} was modified in place (contents or entries rebound), the model program does not write it")
+    return bad[:4]
+
+
+def _snap_slots(slot_objs):
+    return [None if objs is None else {"objs": list(objs), "fp": [_fp_any(o) for o in objs]} for objs in slot_objs]
+
+
+def _roll_slot_objects(buf):
+    def arrs(x):
+        return list(x.values()) if isinstance(x, dict) else [x]
+    return [arrs(buf.observations), [buf.actions], [buf.rewards], [buf.episode_starts], [buf.values], [buf.log_probs], [buf.advantages], [buf.returns]]
+
 
 # ------------------------------------------------------------------ buffers
 
@@ -705,7 +800,12 @@ def run_buffer(case):
                 ids = {k2: id(v) for k2, v in obs.items()} if is_dict else {}
                 snap = copy.deepcopy(args)
                 if is_roll:
-                    buf.add(obs, act, rew, done.astype(np.float32), th.tensor([float(vals[5])] * n), th.tensor([float(vals[6])] * n))
+                    es, vt, lt = done.astype(np.float32), th.tensor([float(vals[5])] * n), th.tensor([float(vals[6])] * n)
+                    before = _snap_slots(_roll_slot_objects(buf))
+                    buf.add(obs, act, rew, es, vt, lt)
+                    if not is_twin and not facts_bad:
+                        groups = [[a for _, a in _leaves(obs)], [act], [rew], [es], [vt], [lt]]
+                        facts_bad += call_facts_compare("rollout_add", before, _roll_slot_objects(buf), groups, [])
                 else:
                     before = _buf_snap(buf)
                     buf.add(obs, nxt, act, rew, done, [{} for _ in range(n)])
@@ -719,8 +819,20 @@ def run_buffer(case):
             else:
                 np.random.seed(1000 + k)
                 if is_roll:
-                    buf.compute_returns_and_advantage(th.zeros(n), np.zeros(n, dtype=bool)) if not buf.generator_ready else None
+                    if not buf.generator_ready:
+                        lv, dn = th.zeros(n), np.zeros(n, dtype=bool)
+                        before = _snap_slots(_roll_slot_objects(buf))
+                        buf.compute_returns_and_advantage(lv, dn)
+                        if not is_twin and not facts_bad:
+                            facts_bad += call_facts_compare("rollout_compute", before, _roll_slot_objects(buf), [[lv], [dn]], [])
+                    before = _snap_slots(_roll_slot_objects(buf))
                     res = {"batches": [b for b in buf.get(3)]}
+                    if not is_twin and not facts_bad:
+                        after = _roll_slot_objects(buf)
+                        for bt in res["batches"]:
+                            facts_bad += call_facts_compare("rollout_get", before, after, [], [getattr(bt, f) for f in bt._fields])
+                            if facts_bad:
+                                break
                 else:
                     res = {"batch": buf.sample(4)}
                     if not is_twin and not facts_bad:
@@ -741,7 +853,10 @@ def run_buffer(case):
         if not _same(outs[0], outs[1]):
             problems.append(("oracle-caller-write-changed-later-result", f"op {k}: twin run (caller overwrote everything it held) sampled different values"))
         if is_roll and prim.full and not do_add and r.random() < 0.5:
+            before = _snap_slots(_roll_slot_objects(prim))
             prim.reset()
+            if not facts_bad:
+                facts_bad += call_facts_compare("rollout_reset", before, _roll_slot_objects(prim), [], [], strict_rebound=True)
             twin.reset()
         if problems:
             break
@@ -905,7 +1020,12 @@ def run_predict(case):
     obs = sample_obs()
     snap = copy.deepcopy(obs)
     ids = {k: id(v) for k, v in obs.items()} if isinstance(obs, dict) else {}
+    pslots = [[p_.detach().numpy() for p_ in pol.parameters()]]
+    before = _snap_slots(pslots)
+    fp_obs = _fp_any(obs)
     a1, _ = pol.predict(obs, deterministic=True)
+    facts_bad = call_facts_compare("predict_dict_prog" if isinstance(obs, dict) else "predict_prog", before, pslots,
+                                   [[a for _, a in _leaves(obs)] or [obs]], [a1], args_fp_before=[fp_obs], args_objs=[obs])
     if not _same(obs, snap) or (isinstance(obs, dict) and ids != {k: id(v) for k, v in obs.items()}):
         problems.append(("oracle-argument-modified", "predict() modified the observation it was handed"))
     hold.keep("a1", a1)
@@ -918,7 +1038,7 @@ def run_predict(case):
     live = sorted({(attr, nm) for (lab, attr, nm) in _shares([("a2", np.asarray(a2), None)] + [(p, a, None) for p, a in _leaves(obs, "obs")], internals)})
     if any(not th.equal(p, q) for p, q in zip(pol.parameters(), params0)):
         problems.append(("oracle-parameters-modified", "predict() changed the policy parameters"))
-    return problems, live, 2
+    return problems, live, 2, facts_bad
 
 
 MODEL_FACTS = {}  # filled from Coq by main() before the worker pool starts (inherited by fork)
@@ -944,11 +1064,11 @@ def model_call_facts():
         for prog, nargs in ((rp, 0), (sp, 1)):
             names.append(prog)
             exprs.append(f"let f := call_facts {prog} {nargs} {nlive} {ndead} in (f_ret_slot f, f_ret_arg f, f_ret_inner f, f_slot_rebound f, "
-                         f"f_slot_inner f, f_slot_arg f, f_slot_written f, f_inner_written f)")
+                         f"f_slot_inner f, f_slot_arg f, f_slot_written f, f_inner_written f, f_arg_written f)")
     for prog, (nargs, nlive, ndead) in BUFFER_PROGRAMS.items():
         names.append(prog)
         exprs.append(f"let f := call_facts {prog} {nargs} {nlive} {ndead} in (f_ret_slot f, f_ret_arg f, f_ret_inner f, f_slot_rebound f, "
-                     f"f_slot_inner f, f_slot_arg f, f_slot_written f, f_inner_written f)")
+                     f"f_slot_inner f, f_slot_arg f, f_slot_written f, f_inner_written f, f_arg_written f)")
     vals = common.coq_eval_many("C19_facts", HEADER, exprs, shard=40, procs=1)
     return {n: v for n, v in zip(names, vals)}
 
